@@ -151,6 +151,11 @@ def template_histories() -> list[dict]:
                             ops.append({"task": 1, "op": y, "delay": t + d})
                             ops.append({"task": 0, "op": "serve", "delay": 0})  # and serve again right after the stop returned
                             out.append({"udp": udp, "ops": ops, "listen_delay": 0, "init_delay": 0, "disc_delay": disc, "ntasks": 2, "template": f"teardown:{stop}:{y}@{d}:held{nheld}:disc{disc}"})
+        for nruns in (2, 3):
+            ops = []
+            for _r in range(nruns):
+                ops += [{"task": 0, "op": "serve", "delay": 0.1}, {"task": 0, "op": "echo", "delay": 0.5}, {"task": 0, "op": "shutdown", "delay": 0.1}]
+            out.append({"udp": udp, "ops": ops, "listen_delay": 0, "init_delay": 0, "disc_delay": 0, "ntasks": 1, "template": f"serve-echo-shutdown-x{nruns}"})
         for stop in ("shutdown", "close"):
             for d in (0.05, 0.1, 0.3):
                 ops = [{"task": 0, "op": "serve", "delay": 0}, {"task": 0, "op": "flood", "delay": 0.5}, {"task": 0, "op": stop, "delay": d}, {"task": 0, "op": "serve", "delay": 0}]
@@ -429,6 +434,22 @@ def check_history(events: list, ctx=None, threads: bool = False) -> str | None:
             return f"listener sockets still open after server_close returned: {r.get('socks')}"
         if ctx is not None and r.get("socks"):
             ctx.count("listeners_closed_checked")
+    if not threads:
+        # (g) a request sent while a serve_forever is up, with no stop request anywhere near, is answered: "serve again" means serve
+        for c, e in calls.items():
+            if e["op"] not in ("echo", "hold") or c not in rets:
+                continue
+            res_ = rets[c]["result"]
+            if res_ == "ok" or res_.startswith("bad"):
+                continue
+            r_i = rets[c]["i"]
+            up_serves = [sv for sv in serves if sv in ups and ups[sv]["i"] < c and (sv not in rets or rets[sv]["i"] > r_i)]
+            stops_near = [x for x in shutdowns + closes if x < r_i and (x not in rets or rets[x]["i"] > ups[up_serves[0]]["i"])] if up_serves else []
+            if up_serves and not stops_near:
+                nth = sorted(sv for sv in serves if sv in ups).index(up_serves[0]) + 1
+                return f"a request sent while serve_forever #{nth} (event {up_serves[0]}) was up and no shutdown / server_close was in progress got '{res_}' instead of an answer"
+            if ctx is not None and up_serves:
+                ctx.count("echo_during_stop_not_judged")
     for c, e in calls.items():
         if e["op"] in ("echo", "hold") and rets[c]["result"].startswith("bad"):
             return f"echo through the serving server answered {rets[c]['result']}"
